@@ -100,7 +100,8 @@ def check_linear(h: Harness, spec, b, g, mind, rng):
                     continue
                 try:
                     c = gram.canon(p, b)
-                    h.holds(site, "ill-typed-program", ["prop_wt", line_spec, c],
+                    # structure only for the stack machine (its refined fields are C02's open finding)
+                    h.holds(site, "ill-typed-program", ["prop_wt_struct" if name == "Stack" else "prop_wt", line_spec, c],
                             f"mapped program is not well-typed: {sx(c)[:300]}", [sx(line_spec), name, kind, d])
                 except RecursionError:
                     h.count("skipped-recursion")
